@@ -10,6 +10,9 @@
 //!   * `two-pages`  : every 2-page document with bodies of length ≤ 1, DEV(1) over the per-page
 //!     size / rotation and metadata (thorough adds bodies ≤ 2)
 //!   * `three-pages`: every 3-page document with bodies of length ≤ 1 (thorough: DEV(1))
+//!   * `image-pairs`: two raw images of identical geometry ({2x2 gray, 2x1 RGB, 65x64 gray,
+//!     40x35 RGB}) that differ in exactly one sample (first / middle / last), on one page or on
+//!     two, drawn in both orders — each name must read back with its own pixels
 //!   × the writer configurations (xref stream × object streams × compression × version): the 8
 //!   without object streams for every program; the 8 with object streams for the sub-family
 //!   described at `configs_for` (each such file carries a 1 000 001-entry xref section).
@@ -278,6 +281,93 @@ pub(crate) mod prog {
             Ok(r) => r,
             Err(p) => Err(format!("writer panic: {p}")),
         }
+    }
+
+    // ------------------------------------------------------------------ image pairs
+
+    /// Two raw images of identical geometry that differ in exactly one sample.
+    #[derive(Clone, Copy, Debug, PartialEq, Eq, Hash)]
+    pub struct ImagePair {
+        /// 0: 2x2 gray, 1: 2x1 RGB, 2: 65x64 gray (4160 bytes), 3: 40x35 RGB (4200 bytes)
+        pub geometry: usize,
+        /// 0: first sample differs, 1: middle, 2: last
+        pub diff_at: usize,
+        pub two_pages: bool,
+        /// draw ImB before ImA
+        pub swapped: bool,
+    }
+    pub const GEOMETRIES: [(u32, u32, bool, &str); 4] = [(2, 2, false, "2x2 gray"), (2, 1, true, "2x1 RGB"), (65, 64, false, "65x64 gray"), (40, 35, true, "40x35 RGB")];
+    impl ImagePair {
+        /// (pixels of ImA, pixels of ImB)
+        pub fn pixels(&self) -> (Vec<u8>, Vec<u8>) {
+            let (w, h, rgb, _) = GEOMETRIES[self.geometry];
+            let len = (w * h * if rgb { 3 } else { 1 }) as usize;
+            let a: Vec<u8> = (0..len).map(|i| ((i * 7 + 3) % 251) as u8).collect();
+            let mut b = a.clone();
+            let at = [0, len / 2, len - 1][self.diff_at];
+            b[at] ^= 0xff;
+            (a, b)
+        }
+        pub fn json(&self) -> serde_json::Value {
+            let at = ["first", "middle", "last"][self.diff_at];
+            serde_json::json!({"geometry": GEOMETRIES[self.geometry].3, "differing_sample": at,
+                               "placement": if self.two_pages { "two pages" } else { "one page" }, "order": if self.swapped { "ImB, ImA" } else { "ImA, ImB" }})
+        }
+        fn order(&self) -> [(&'static str, f64, f64); 2] {
+            let a = ("ImA", 100.0, 400.0);
+            let b = ("ImB", 300.0, 200.0);
+            if self.swapped { [b, a] } else { [a, b] }
+        }
+    }
+
+    pub fn build_image_pair(ip: &ImagePair) -> Result<Document, String> {
+        let (w, h, rgb, _) = GEOMETRIES[ip.geometry];
+        let (pa, pb) = ip.pixels();
+        let mk = |px: Vec<u8>| Image::from_raw_data(px, w, h, if rgb { ColorSpace::DeviceRGB } else { ColorSpace::DeviceGray }, 8);
+        let mut doc = Document::new();
+        let mut page = Page::a4();
+        for (k, (name, x, y)) in ip.order().iter().enumerate() {
+            if ip.two_pages && k == 1 {
+                doc.add_page(std::mem::replace(&mut page, Page::a4()));
+            }
+            page.add_image(*name, mk(if *name == "ImA" { pa.clone() } else { pb.clone() }));
+            page.draw_image(name, *x, *y, 64.0, 32.0).map_err(|e| format!("draw_image: {e}"))?;
+        }
+        doc.add_page(page);
+        Ok(doc)
+    }
+
+    pub fn write_image_pair(ip: &ImagePair, cfg: Cfg) -> Result<Vec<u8>, String> {
+        match vx::guard(|| {
+            let mut doc = build_image_pair(ip)?;
+            doc.to_bytes_with_config(cfg.writer()).map_err(|e| format!("writer error: {e}"))
+        }) {
+            Ok(r) => r,
+            Err(p) => Err(format!("writer panic: {p}")),
+        }
+    }
+
+    /// Each page shows its images in call order; each image XObject holds the pixels supplied
+    /// under that name.
+    pub fn model_image_pair(ip: &ImagePair) -> DocObs {
+        let (w, h, rgb, _) = GEOMETRIES[ip.geometry];
+        let (pa, pb) = ip.pixels();
+        let mut pages = vec![PageObs { media: [0.0, 0.0, 595.0, 842.0], rot: 0, ops: Vec::new(), images: BTreeMap::new(), content: Vec::new() }];
+        for (k, (name, x, y)) in ip.order().iter().enumerate() {
+            if ip.two_pages && k == 1 {
+                pages.push(PageObs { media: [0.0, 0.0, 595.0, 842.0], rot: 0, ops: Vec::new(), images: BTreeMap::new(), content: Vec::new() });
+            }
+            let pg = pages.last_mut().unwrap();
+            pg.ops.push(MOp::n("q", &[]));
+            pg.ops.push(MOp::n("cm", &[64.0, 0.0, 0.0, 32.0, *x, *y]));
+            pg.ops.push(MOp { op: "Do".into(), args: vec![Arg::Name(name.to_string())] });
+            pg.ops.push(MOp::n("Q", &[]));
+            pg.images.insert(
+                name.to_string(),
+                ImageObs { width: w as i64, height: h as i64, color_space: if rgb { "DeviceRGB" } else { "DeviceGray" }.into(), bpc: 8, pixels: if *name == "ImA" { pa.clone() } else { pb.clone() } },
+            );
+        }
+        DocObs { pages }
     }
 
     // ------------------------------------------------------------------ observations and model
@@ -744,19 +834,45 @@ pub(crate) fn slug(msg: &str) -> String {
     s.trim_matches('-').chars().take(90).collect()
 }
 
+/// One document family member: how to write it, what to expect.
+struct Case<'a> {
+    input: u64,
+    nontrivial: bool,
+    label: String,
+    json: serde_json::Value,
+    want: DocObs,
+    want_unflushed: DocObs,
+    /// ask the (slow) library reader about the known-unreadable 20 MB file of this case
+    ask_lib_on_broken: bool,
+    write: &'a dyn Fn(Cfg) -> Result<Vec<u8>, String>,
+}
+
 fn run_program(c: &mut Ctx, p: &Program, cfgs: &[Cfg]) {
-    c.input(vx::h64(&(p, cfgs)));
-    if p.content_calls() > 0 {
+    let case = Case {
+        input: vx::h64(&(p, cfgs)),
+        nontrivial: p.content_calls() > 0,
+        label: format!("program={}", p.short()),
+        json: p.json(),
+        want: prog::model(p, false),
+        want_unflushed: prog::model(p, true),
+        ask_lib_on_broken: p.max_body() == 0 && p.pages.len() == 1,
+        write: &|cfg| prog::write(p, cfg),
+    };
+    run_case(c, &case, cfgs);
+}
+
+fn run_case(c: &mut Ctx, case: &Case, cfgs: &[Cfg]) {
+    c.input(case.input);
+    if case.nontrivial {
         c.nontrivial();
     }
-    let want = prog::model(p, false);
-    let want_unflushed = prog::model(p, true);
+    let (want, want_unflushed) = (&case.want, &case.want_unflushed);
     let mut first_lib: Option<(Cfg, DocObs)> = None;
     let mut first_ref: Option<(Cfg, DocObs)> = None;
     let mut oh = 0u64;
     for cfg in cfgs {
-        let tag = format!("{} program={}", cfg.label(), p.short());
-        let bytes = match prog::write(p, *cfg) {
+        let tag = format!("{} {}", cfg.label(), case.label);
+        let bytes = match (case.write)(*cfg) {
             Ok(b) => b,
             Err(e) => {
                 c.fail(format!("C02/write-failed:{}", slug(&e)), format!("{tag}: {e}"));
@@ -787,7 +903,7 @@ fn run_program(c: &mut Ctx, p: &Program, cfgs: &[Cfg]) {
                 if cfg.obj_streams && !cfg.xref_stream {
                     if let Some(members) = prog::objstm_with_classic_xref_signature(&file) {
                         // (the library reader needs seconds for the 20 MB table; it is asked once, in the probe of the first program)
-                        let lib = if p.max_body() == 0 && p.pages.len() == 1 { format!("{:?}", prog::observe_lib(&bytes).err()) } else { "not asked".to_string() };
+                        let lib = if case.ask_lib_on_broken { format!("{:?}", prog::observe_lib(&bytes).err()) } else { "not asked".to_string() };
                         c.fail(
                             "C02/objstm-with-classic-xref-unreadable",
                             format!("{tag}: objects {members:?} live in an object stream but the classic xref table lists them as free; reference reader: {:?}; library reader: {lib}", prog::observe_ref_file(&file).err()),
@@ -802,8 +918,8 @@ fn run_program(c: &mut Ctx, p: &Program, cfgs: &[Cfg]) {
         };
         match &robs {
             Ok(o) => {
-                if let Some((aspect, d)) = prog::diff(&want, o) {
-                    let key = if aspect == "operators" && prog::diff(&want_unflushed, o).is_none() {
+                if let Some((aspect, d)) = prog::diff(want, o) {
+                    let key = if aspect == "operators" && prog::diff(want_unflushed, o).is_none() {
                         "C02/draw-image-emitted-before-pending-text".to_string()
                     } else {
                         format!("C02/reference-reader-sees-different-{aspect}")
@@ -828,8 +944,8 @@ fn run_program(c: &mut Ctx, p: &Program, cfgs: &[Cfg]) {
         let lobs = prog::observe_lib(&bytes);
         match &lobs {
             Ok(o) => {
-                if let Some((aspect, d)) = prog::diff(&want, o) {
-                    let key = if aspect == "operators" && prog::diff(&want_unflushed, o).is_none() {
+                if let Some((aspect, d)) = prog::diff(want, o) {
+                    let key = if aspect == "operators" && prog::diff(want_unflushed, o).is_none() {
                         "C02/draw-image-emitted-before-pending-text".to_string()
                     } else {
                         format!("C02/library-reader-sees-different-{aspect}")
@@ -866,7 +982,7 @@ fn run_program(c: &mut Ctx, p: &Program, cfgs: &[Cfg]) {
         oh = vx::hmix(oh, vx::h64(&format!("{:?}", o.pages.iter().map(|p| (&p.ops, &p.images, p.rot)).collect::<Vec<_>>())));
     }
     c.outcome(oh);
-    c.sample(json!({"program": p.json(), "configurations": cfgs.len()}));
+    c.sample(json!({"case": case.json, "configurations": cfgs.len()}));
 }
 
 /// Configurations with object streams produce a 1 000 001-entry cross-reference section (the
@@ -952,6 +1068,35 @@ pub fn run(rep: &mut Report) {
             let p = prog::choose_single_page(c, single_len);
             let cfgs = configs_for(c, &p, thorough);
             run_program(c, &p, &cfgs);
+        });
+    }
+    if on("image-pairs") {
+        // two images of identical geometry that differ in one sample: each name must keep its own pixels
+        rep.explore("image-pairs", Explore::full(), |c: &mut Ctx| {
+            let ip = prog::ImagePair {
+                geometry: c.choose("geometry", prog::GEOMETRIES.len()),
+                diff_at: c.choose("differing_sample", 3),
+                two_pages: c.flag("two_pages"),
+                swapped: c.flag("swapped"),
+            };
+            // the 8 configurations without object streams; the default object-stream pair for the
+            // first differing position of each geometry / placement (drawn in call order)
+            let mut cfgs: Vec<Cfg> = Cfg::all().into_iter().filter(|cf| !cf.obj_streams).collect();
+            if ip.diff_at == 0 && !ip.swapped {
+                cfgs.extend(Cfg::all().into_iter().filter(|cf| cf.obj_streams && cf.compress && !cf.v14));
+            }
+            let want = prog::model_image_pair(&ip);
+            let case = Case {
+                input: vx::h64(&(ip, &cfgs)),
+                nontrivial: true,
+                label: format!("image-pair={}", ip.json()),
+                json: ip.json(),
+                want_unflushed: want.clone(),
+                want,
+                ask_lib_on_broken: false,
+                write: &|cfg| prog::write_image_pair(&ip, cfg),
+            };
+            run_case(c, &case, &cfgs);
         });
     }
     if !on("multi") {
